@@ -5,7 +5,7 @@ import e2e
 from core import Family, run_impl, cmp_tree
 from props import _sim
 
-GEN_FILES = ["EntryPoint.v"]
+GEN_FILES = ["EntryPoint.v", "CCV.v", "Argmax.v"]
 TRUSTED = e2e.TRUSTED
 ASSUMPTIONS = e2e.ASSUMPTIONS
 
